@@ -1,0 +1,7 @@
+//go:build !verif
+
+package sleep
+
+// verifYieldSleepcmd marks a scheduling point for the verification harness;
+// in normal builds it does nothing.
+func verifYieldSleepcmd(string) {}
